@@ -90,6 +90,18 @@ def segEnv (sqrt : K → K) (key : K → Int) : Env K (Seg K) (Pt K) (Option (Bo
 /-- `getSelfIntersections`, second loop: pairwise intersections filtered by `1e-2 < t1 < 1 - 1e-2` -/
 def selfWindow (t1 : K) : Bool := decide ((1 : K) / 100 < t1) && decide (t1 < 1 - (1 : K) / 100)
 
+/-- segments number i1 < i2 of a path of n segments share a node (the closing pair counts for a closed path) -/
+def neighbours (closed : Bool) (n i1 i2 : Nat) : Bool := i2 == i1 + 1 || (closed && i1 == 0 && i2 == n - 1)
+
+/-- `getSelfIntersections`, second loop, given what `intersections` returned for every pair i1 < i2 in loop order: the window is
+    applied to neighbouring segments only (the pinned code applied it to every pair: F26) -/
+def selfPairs (closed : Bool) (n : Nat) (hits : List (Nat × Nat × List (K × K))) : List (Nat × Nat × K × K) :=
+  hits.flatMap fun h => (h.2.2.filter fun p => !neighbours closed n h.1 h.2.1 || selfWindow p.1).map fun p => (h.1, h.2.1, p.1, p.2)
+
+/-- the pinned second loop -/
+def selfPairsPinned (hits : List (Nat × Nat × List (K × K))) : List (Nat × Nat × K × K) :=
+  hits.flatMap fun h => (h.2.2.filter fun p => selfWindow p.1).map fun p => (h.1, h.2.1, p.1, p.2)
+
 /-- `getSelfIntersections`, first loop: a reported loop needs both parameters strictly inside (0,1) -/
 def loopWindow (t1 t2 : K) : Bool := decide (0 < t1) && decide (t1 < 1) && decide (0 < t2) && decide (t2 < 1)
 
